@@ -1,7 +1,7 @@
 (* C04 — the packed CAN layout tiles the message.  Statements only. *)
 From Coq Require Import String ZArith List Bool.
 From FcpV Require Import Schema.Types Layout.Packed Layout.PackedProofs.
-From FcpV Require Import Py.BufferLib Layout.EncoderLib Layout.EncoderProofs.
+From FcpV Require Import Py.BufferLib Layout.EncoderLib Layout.EncoderProofs Layout.EncoderFailProofs.
 Import ListNotations.
 Open Scope Z_scope.
 
@@ -130,3 +130,16 @@ Proof.
   - intros name. unfold end_ok, sig_fields. cbn [isignals find sbname]. destruct (String.eqb "x" name); cbn; exact I.
   - vm_compute. repeat split; repeat constructor.
 Qed.
+
+(* both directions: on every binding whose struct resolves in the model, the translated generate() returns the images of the
+   model's pieces when the model lays the binding out, and raises when the model does not *)
+Theorem source_generate_agrees_with_model :
+  forall sc unroll (e : encoder) im (e0 : penc) fuel l,
+    NoDup (map sname (structs sc)) -> sig_ok im -> pe_fcp e0 = sc -> pe_unroll e0 = unroll ->
+    lresolve unroll sc (itype im) = Some l -> (ldepth l <= fuel)%nat ->
+    match snd (generate unroll sc e im) with
+    | Some ps => exists e1, PyEncoder.py_generate fuel e0 im = POk (e1, map pv ps)
+    | None => exists ex, PyEncoder.py_generate fuel e0 im = PRaise ex
+    end.
+Proof. exact translated_generate_agrees. Qed.
+Print Assumptions source_generate_agrees_with_model.
